@@ -812,7 +812,10 @@ def hex_digits(n, width=0):
         return VStr(('%0' + str(width) + 'x') % n if width else '%x' % n)
     neg = n < 0
     if (neg if isinstance(neg, bool) else cur().branch(neg.e)):
-        raise EngineLeak("'%x' of a negative symbolic int")
+        if width:
+            raise EngineLeak("'%0Nx' of a negative symbolic int")
+        # Python renders the sign followed by the digits of the magnitude
+        return VStr._mk([45] + list(hex_digits(-n)._d))
     if n.hi is None:
         raise EngineLeak("'%x' of an unbounded int")
     if n.lia:
